@@ -692,7 +692,17 @@ def _sign(a):
     return (a > 0) - (a < 0)
   if a.is_const:
     return P.const((a.cval > 0) - (a.cval < 0))
-  return E.ite(a > 0, P.const(1), E.ite(a < 0, P.const(-1), P.const(0)))
+  # data-dependent discrete value: path oracle over {<0, ==0, >0}
+  c = _ctx.cur()
+  memo = c.__dict__.setdefault('_sign_memo', {})
+  if a in memo:
+    return memo[a]
+  opts = [(-1, a < 0), (0, a.eq(0)), (1, a > 0)]
+  opts = [(v, f) for v, f in opts if _feasible(c, f)] or opts[:1]
+  v, f = opts[c.choose(len(opts), 'sign(%r)' % (a,))]
+  c.assume(f, 'oracle: sign == %d' % v)
+  memo[a] = P.const(v)
+  return memo[a]
 
 
 def sign(x, name=None):
